@@ -29,6 +29,14 @@ same declarations as without them (comment nodes declare nothing and are ignored
 returned by build_schema, written with ElementTree.tostring, parses with minidom and ElementTree to the same tree; main writes a
 file that parses (an ExpatError inside main is reported as not-well-formed); the `text` entry still compares character by character.
 
+Arrays and default values (owner-C20 round 8): a fifth to a third of the synthesised populations (`arrays` seed) and a fifth of
+the single-edit cases on the real model dimension their attributes the three ways model files do - O_ATTR.Dimensions ('[4]',
+'[2][3]', '[]') together with one S_DIM row per dimension across R120, the string only, the rows only - and give attributes and
+data types default values; the add-attribute edit also adds ARRAY attributes, and the edit `redim` (re-)dimensions an attribute
+or makes it scalar again.  The property counts "one attribute per non-derived attribute of a supported type ... typed by the base
+data type": dimensions and defaults are no part of the diagram, so D and K demand the same declarations as without them (`redim`
+is the identity on the diagram and is not sent to the model).
+
 Family session (patterns memoisation / aliasing / routes / two of a kind): ONE loaded population - build_schema and main for
 one component, then schemas of other components interleaved with edits of the population, mk_component (the SQL route) on the
 same population and scribbling over the tree returned last, at the end the first component again by both routes; diagrams
@@ -59,13 +67,15 @@ RULE = ('random class diagrams as for C14, every second one with XML-special / n
         'by both routes from ONE loaded population interleaved with edits, mk_component on the same population and mutation of '
         'the returned tree, on diagrams with same-key-letter classes in different components; a third of all synthesised populations '
         'with non-empty description texts (--, -->, <, &, quotes, newlines) on every element kind, by both routes: same '
-        'declarations, well-formed output')
+        'declarations, well-formed output; a fifth to a third of the populations with ARRAY attributes (O_ATTR.Dimensions and / '
+        'or S_DIM rows across R120) and default values on attributes and data types, array attributes added by edits, '
+        'attributes (re-)dimensioned by edits: same declarations')
 EXHAUSTIVE = {'quick': False, 'thorough': False}
 ASSUMPTIONS = [
-    'EP_PKGREF package references (the `for ep_pkg in many(ep_pkg).EP_PKG[1402, ...]` loop of is_contained_in) are not '
-    'in the Lean model; family pkgref checks them by D only (a data type of a global package referred to from the component '
-    'is declared once: fixed finding); acyclic containment and acyclic user-type chains (XWF: TreeOk, DtChainOk) - Python does '
-    'not terminate otherwise',
+    'EP_PKGREF package references (the `for ep_pkg in many(ep_pkg).EP_PKG[1402, ...]` loop of is_contained_in) are in the '
+    'Lean model (ClassDiagram.pkgrefs); family pkgref is judged by D and compared by K (a data type of a global package referred '
+    'to from the component is declared once: fixed finding, theorem xsd_global_contained_declared_once); acyclic containment + '
+    'reference graph and acyclic user-type chains (XWF: TreeOk, DtChainOk) - Python does not terminate otherwise',
     'the EMPTY data type name is in the domain (modelled: omitted wherever Python tests the name for truthiness)',
     'domain: well-formed populations as for C14; data type names are unique (xs:simpleType names must be)',
     'the written text is modelled as minidom.toprettyxml of Python 3.12.1 writes it (attribute values: & < > " replaced); names with CR, LF or TAB are outside the domain (that version writes them raw and an XML parser then reads blanks)',
@@ -125,6 +135,18 @@ def _real_sites(d):
                             yield [['retype', c['id'], a['id'], ba['kind'][1]], ['retype', base['id'], ba['id'], t['id']]]
         for t in d['dts']:
             yield [['add-attr', c['id'], {'id': _fresh_id(), 'name': 'Added_Attr', 'kind': ['base', t['id']]}]]
+        # --- owner-C20 round 8: array attributes (string and S_DIM rows / string only / rows only), re-dimensioned ones
+        for j, t in enumerate(d['dts']):
+            counts = E.DIMENSIONS[j % len(E.DIMENSIONS)]
+            dims = [[E._dims_text(counts), counts, '0'], [E._dims_text(counts), [], None], ['', counts, None]][j % 3]
+            yield [['add-attr', c['id'], {'id': _fresh_id(), 'name': 'Added_Array', 'kind': ['base', t['id']], 'dims': dims}]]
+        for j, a in enumerate(c['attrs']):
+            for counts in E.DIMENSIONS[:2]:
+                yield [['redim', c['id'], a['id'], E._dims_text(counts), counts]]
+            yield [['redim', c['id'], a['id'], '[8]', []]]
+            yield [['redim', c['id'], a['id'], '', [5]], ['rename', c['id'], a['id'], a['name'] + '_arr']]
+            yield [['redim', c['id'], a['id'], '[2]', [2]], ['redim', c['id'], a['id'], '', []]]
+        # --- end owner-C20 round 8
         yield [['add-attr', c['id'], {'id': _fresh_id(), 'name': 'Added_Derived',
                                        'kind': ['derived', E.GLOBAL_DT_BASE + 2]}]]
         yield [['add-attr', c['id'], {'id': _fresh_id(), 'name': 'Added_Ref', 'kind': ['ref', some_base[0], some_base[1]]}]]
@@ -170,6 +192,8 @@ def generate(ctx):
                 any(bare(c) and E.py_contained(dd, k['id'], c['parent']) for c in dd['classes'])]
         if j % 3 == 1:
             dd['descr'] = r.randint(1, 1 << 30)
+        if j % 4 == 1:                                  # --- owner-C20 round 8
+            dd['arrays'] = r.randint(1, 1 << 30)
         script = _xscript(r, dd, r.randint(0, 2))
         yield {'src': 'synth', 'diagram': dd, 'comp': r.choice(good or comps), 'edits': script if j % 6 != 1 else [],
                'entry': 'build' if j % 6 != 1 else 'main', 'perm': r.randint(1, 1 << 30)}
@@ -185,6 +209,8 @@ def generate(ctx):
             continue
         if j % 2 == 1:
             dd['descr'] = r.randint(1, 1 << 30)
+        if j % 3 == 1:                                  # --- owner-C20 round 8
+            dd['arrays'] = r.randint(1, 1 << 30)
         twins = [t for t in dd['dts'] if sum(1 for u in dd['dts'] if u['name'] == t['name']) > 1 and not t.get('predef')]
         inside = [k['name'] for k in comps if any(E.py_contained(dd, k['id'], t['parent']) for t in twins)]
         loose_cls = {x[0] for x in dd.get('loose', [])}
@@ -206,7 +232,7 @@ def generate(ctx):
             yield {'src': 'synth', 'diagram': dd, 'comp': name, 'edits': [], 'entry': 'main',
                    'perm': r.randint(1, 1 << 30), 'nospec': True}
     # ---- package references (EP_PKGREF, R1402): classes and data types of a package REFERRED to from inside the component
-    #      belong to its scope.  D only (the Lean model has no package references).  The referred package may be a GLOBAL one:
+    #      belong to its scope.  D and K (the Lean model follows the EP_PKGREF rows).  The referred package may be a GLOBAL one:
     #      its data types are then both "global" and "contained" and must still be declared once (fixed finding: build_schema
     #      declared them twice).
     for j in range(ctx.pick(120, 800)):
@@ -217,7 +243,8 @@ def generate(ctx):
         if not gained:
             continue
         yield {'src': 'synth', 'diagram': dd, 'comp': r.choice(gained), 'edits': [], 'entry': r.choice(['build', 'main']),
-               'perm': r.randint(1, 1 << 30), 'audit': j % 3 == 0, 'nomodel': True}
+               'perm': r.randint(1, 1 << 30), 'audit': j % 3 == 0}
+        # --- pkgref-in-model: no 'nomodel' any more - the Lean model has the EP_PKGREF rows (ClassDiagram.pkgrefs), K compares
     # ---- the command line of gen_xsd_schema: long / joined / = spellings, -v, several model paths, usage errors
     styles = ['long', 'eq', 'joined', 'verbose', 'split', 'split', 'no-component', 'no-output', 'no-model']
     for j in range(ctx.pick(36, 360)):
@@ -241,6 +268,8 @@ def generate(ctx):
             continue
         if j % 2 == 0:
             dd['descr'] = r.randint(1, 1 << 30)
+        if j % 3 == 1:                                  # --- owner-C20 round 8
+            dd['arrays'] = r.randint(1, 1 << 30)
         nm0 = r.choice(comps)
         steps = [['xsd', 'build', nm0], ['xsd', 'main', nm0]]
         cur = dd
@@ -267,7 +296,8 @@ def generate(ctx):
         i += 1
         yield {'src': 'real', 'model': 'simple', 'comp': 'Comp', 'edits': edits, 'entry': 'build',
                'perm': rng.randint(1, 1 << 30) if i % 3 == 0 else None,
-               'descr': rng.randint(1, 1 << 30) if i % 4 == 0 else None}
+               'descr': rng.randint(1, 1 << 30) if i % 4 == 0 else None,
+               'arrays': rng.randint(1, 1 << 30) if i % 5 == 1 else None}      # --- owner-C20 round 8
     for j in range(ctx.pick(60, 800)):
         r = rng.fork('real', j)
         yield {'src': 'real', 'model': 'simple', 'comp': 'Comp', 'edits': _xscript(r, d, r.randint(2, ctx.pick(4, 8))),
@@ -282,6 +312,9 @@ def generate(ctx):
         if i % 4 in (1, 2):
             # NON-EMPTY descriptions on every element kind (with --, <, &, quotes, newlines): no part of what is mirrored
             d['descr'] = r.randint(1, 1 << 30)
+        if i % 5 in (1, 3):
+            # --- owner-C20 round 8: array attributes (Dimensions / S_DIM rows), default values: no part of what is mirrored
+            d['arrays'] = r.randint(1, 1 << 30)
         comps = [k['name'] for k in d['containers'] if k['comp']]
         if not comps or r.random() < 0.03:
             yield {'src': 'synth', 'diagram': d, 'comp': 'NoSuchComponent', 'edits': [], 'entry': 'main',
@@ -363,6 +396,24 @@ def _call_main(gen_xsd, argv, fail):
         logging.disable(logging.CRITICAL)
 
 
+def _arrays_note(case, d):
+    """--- owner-C20 round 8: which attributes of the input are arrays (for the text of a finding)"""
+    if case.get('arrays') is not None:
+        return ' [attributes of the loaded population dimensioned by pop_set_arrays(seed %r)]' % (case['arrays'],)
+    if d.get('arrays') is None:
+        return ''
+    rows = E._with_arrays(E.rows_of(d), d['arrays'])
+    cols = [c[0] for c in E.tables()['O_ATTR']]
+    dims = {}
+    for t, v in rows:
+        if t == 'S_DIM':
+            x = dict(zip([c[0] for c in E.tables()['S_DIM']], v))
+            dims.setdefault((x['Obj_ID'], x['Attr_ID']), []).append(x['elementCount'])
+    out = ['%s: Dimensions %r, S_DIM rows %s' % (v[cols.index('Name')], v[cols.index('Dimensions')], dims.get((v[1], v[0]), []))
+           for t, v in rows if t == 'O_ATTR' and (v[cols.index('Dimensions')] or (v[1], v[0]) in dims)]
+    return ' [array attributes: %s]' % '; '.join(out)
+
+
 def _comp_id(d, name):
     return next((k['id'] for k in d['containers'] if k['comp'] and k['name'] == name), None)
 
@@ -375,11 +426,24 @@ def run_impl(case):
     name, edits, entry = case['comp'], case['edits'], case['entry']
     fails = []
     stats = {'src_' + case['src']: 1, 'entry_' + entry: 1, 'edits': len(edits)}
+    # --- pkgref-in-model begin
+    if d0.get('pkgrefs'):
+        stats['pkgref_rows'] = len(d0['pkgrefs'])
+        stats['pkgref_cases_model_compared'] = 0 if case.get('nomodel') else 1
+        _cid = _comp_id(d0, name)
+        if _cid is not None:
+            stats['pkgref_global_and_contained_types'] = sum(
+                1 for t in d0['dts'] if E.py_global(d0, t['parent']) and E.py_contained(d0, _cid, t['parent']))
+    # --- pkgref-in-model end
     for e in edits:
         stats['edit_' + e[0]] = stats.get('edit_' + e[0], 0) + 1
+    if case.get('arrays') is not None or d0.get('arrays') is not None:     # --- owner-C20 round 8
+        stats['arrays'] = 1
+    stats['edit_add-array'] = sum(1 for e in edits if e[0] == 'add-attr' and e[2].get('dims') and (e[2]['dims'][0] or e[2]['dims'][1]))
 
     def fail(sig, what):
-        fails.append({'sig': sig, 'what': '%s [component=%r entry=%s edits=%s]' % (what, name, entry, json.dumps(edits))})
+        fails.append({'sig': sig, 'what': '%s [component=%r entry=%s edits=%s]%s'
+                      % (what, name, entry, json.dumps(edits), _arrays_note(case, d0))})
 
     if case.get('family') == 'session':
         return _run_session(case, stats)
@@ -419,6 +483,8 @@ def run_impl(case):
                 raise HarnessError('build entry needs an existing component')
             if case.get('descr') is not None:
                 E.pop_set_descriptions(m, case['descr'])
+            if case.get('arrays') is not None:          # --- owner-C20 round 8
+                E.pop_set_arrays(m, case['arrays'])
             el = gen_xsd.build_schema(m, c_c)
             got0 = E.canon_xml(E.tree_of_element(el))
             _serialised_ok(el, got0, fail)
@@ -497,7 +563,8 @@ def _session_model_steps(case):
     out, edits = [], []
     for st in case['steps']:
         if st[0] == 'edit':
-            edits.append(st[1])
+            if st[1][0] != 'redim':                     # --- owner-C20 round 8: the identity on the diagram
+                edits.append(st[1])
         elif st[0] == 'xsd':
             out.append([st[2], list(edits) if st[1] == 'build' else []])
     return out
@@ -521,7 +588,7 @@ def _run_session(case, stats):
     fails, answers = [], []
 
     def fail(sig, what, i):
-        fails.append({'sig': sig, 'what': '%s [step %d of %s]' % (what, i, json.dumps(case['steps']))})
+        fails.append({'sig': sig, 'what': '%s [step %d of %s]%s' % (what, i, json.dumps(case['steps']), _arrays_note(case, d0))})
 
     with tempfile.TemporaryDirectory(dir=_ctx['tmp']) as tmpdir:
         loader, path = C14._loader_for(case, tmpdir)
@@ -664,7 +731,8 @@ def model_line(case):
                       [[nm, [E.xedit_sexp(e) for e in es]] for nm, es in _session_model_steps(case)]])
     if case['entry'] == 'text':
         return dumps([Sym('c20-text'), E.diagram_sexp(d), case['comp']])
-    return dumps([Sym('c20'), E.diagram_sexp(d), case['comp'], [E.xedit_sexp(e) for e in case['edits']]])
+    return dumps([Sym('c20'), E.diagram_sexp(d), case['comp'],
+                  [E.xedit_sexp(e) for e in case['edits'] if e[0] != 'redim']])     # --- owner-C20 round 8 (redim)
 
 
 def model_obs(case, ans):
@@ -693,6 +761,13 @@ def shrink_candidates(case):
         c = dict(case)
         c['edits'] = edits[:i] + edits[i + 1:]
         yield c
+    # --- owner-C20 round 8: drop the decorations that are no part of the diagram (descriptions, own types of referential
+    #     attributes, arrays / defaults) one at a time
+    for k in ('descr', 'ref_types', 'arrays'):
+        if case.get(k) is not None:
+            yield dict(case, **{k: None})
+        if case['src'] == 'synth' and case['diagram'].get(k) is not None:
+            yield dict(case, diagram={x: y for x, y in case['diagram'].items() if x != k})
     if case['src'] != 'synth':
         return
     if case.get('family') == 'session':
@@ -712,7 +787,7 @@ def shrink_candidates(case):
             ok = True
             for e in edits:
                 refs = [e[1]] if e[0] != 'add-type' else [e[1]['kind'][1]]
-                if e[0] in ('rename', 'retype'):
+                if e[0] in ('rename', 'retype', 'redim'):       # --- owner-C20 round 8 (redim)
                     refs.append(e[2])
                 if e[0] == 'retype':
                     refs.append(e[3])
